@@ -25,6 +25,8 @@ ASSUMPTIONS = [
     'no other writer stores under the memo keys',
     'expiry times and clock values are multiples of 2**-10 s (exact in binary64), so "inside the expiry time" is decided without rounding; the wrapped '
     'function takes no virtual time (memoize_stampede measures a duration of 0 and never recomputes early in these runs)',
+    'early recomputation of memoize_stampede (stampede_recompute, stampede_marker): random.random and threading.Thread of diskcache.recipes are replaced by a fixed draw and a '
+    'thread object that runs its target when the harness says so (at once, or after the probe calls); the wrapped function advances the virtual clock (8 s first run, 1 s recomputation, 2**-6 s other calls)',
     'lock contention: the other client only HOLDS the write lock (BEGIN IMMEDIATE ... COMMIT without writing) and lets go after finitely many failed attempts of the caller; '
     'the retry loop of Cache._transact does not sleep (each failed BEGIN waits the SQLite busy timeout in real time, 2 ms here), so the virtual clock does not advance while waiting',
 ]
@@ -976,6 +978,169 @@ def stampede_recompute(ctx, res):
         c.close()
 
 
+# ---------------------------------------------------------------------------
+# memoize_stampede keeps one more entry per call while an early recomputation is under way (its "started" marker).  That entry
+# is nobody's result: a call with OTHER arguments made while it exists returns what the function returns for ITS arguments.
+
+
+MARKER_EXT = [None, core.ENOVAL, core.UNKNOWN, (), (None,), ('ENOVAL',), 'ENOVAL', 0, False, '', b'']      # values that extend an argument tuple
+MARKER_BASES = [((), {}), ((1,), {}), ((None,), {}), (('a', 2), {}), ((1,), {'k': 2}), ((), {'k': None}), ((core.ENOVAL,), {})]
+MARKER_LONG, MARKER_SHORT, MARKER_QUICK = 8.0, 1.0, 2.0 ** -6       # virtual seconds the function takes: first run of the base call / its recomputation / any other call
+MARKER_KINDS = ['stampede', 'stampede-fanout']
+MARKER_ENV = {'int': int, 'inf': float('inf'), 'ENOVAL': core.ENOVAL, 'UNKNOWN': core.UNKNOWN}
+
+
+def marker_enc(a, kw):
+    return [list(map(repr, a)), {k: repr(v) for k, v in kw.items()}]
+
+
+def marker_dec(call):
+    ev = lambda t: eval(t, dict(MARKER_ENV))      # noqa: E731, S307 (reprs written by this module)
+    return tuple(ev(x) for x in call[0]), {k: ev(v) for k, v in call[1].items()}
+
+
+def marker_probes(a, kw):
+    """calls whose arguments EXTEND the call (a, kw): one or two more positional values, one more keyword, both"""
+    out = [(a + (v,), dict(kw)) for v in MARKER_EXT]
+    out += [(a + (v, w), dict(kw)) for v, w in ((None, None), (None, core.ENOVAL), (core.ENOVAL, None), (core.ENOVAL, core.ENOVAL), ((), ()))]
+    for name in ('z', 'ENOVAL', 'none'):
+        if name not in kw:
+            out += [(a, dict(kw, **{name: v})) for v in (None, core.ENOVAL, ())]
+    out.append((a + (None,), dict(kw, z=None)))
+    out.append((a + (core.ENOVAL,), dict(kw, z=core.ENOVAL)))
+    return out
+
+
+def run_stampede_marker(res, clock, make, kind, typed, ign, base, mode, only=None):
+    """-> [(sig, probe call, text)].  The base call is computed (the function takes MARKER_LONG s), then repeated with the
+    random draw forced so that memoize_stampede takes its early-recomputation branch.  mode 'pending': the recomputation
+    thread has been started and has not run yet; 'done': it has run (it took MARKER_SHORT s).  In both, inside the time the
+    first computation took, every probe call (fresh arguments, the function takes MARKER_QUICK s) and the base call itself
+    return what the function returns for their own arguments, nothing raises; afterwards ('pending': once the thread has
+    run) the same again."""
+    import types
+    import diskcache.recipes as rec
+    draw = [0.999]
+    started = []
+
+    class Thread:
+        daemon = False
+
+        def __init__(self, target=None, args=(), kwargs=None, **_):
+            self._t, self._a, self._k = target, args, kwargs or {}
+
+        def start(self):
+            if mode == 'pending':
+                started.append(self)
+            else:
+                started.append(None)
+                self._t(*self._a, **self._k)
+
+        def join(self, timeout=None):
+            pass
+    runs = []
+    base_v = vis(base[0], base[1], ign)
+
+    def result_for(a, k):
+        return repr((vis(a, k, ign), 'result'))
+
+    def g(*a, **k):
+        v = vis(a, k, ign)
+        first = v not in [x for x in runs]
+        runs.append(v)
+        clock.set(clock.time() + ((MARKER_LONG if first else MARKER_SHORT) if v == base_v else MARKER_QUICK))
+        return result_for(a, k)
+    saved = (rec.random, rec.threading)
+    rec.random = types.SimpleNamespace(random=lambda: draw[0])
+    rec.threading = types.SimpleNamespace(Thread=Thread)
+    bad = []
+    try:
+        f = make(typed, ign)(g)
+
+        def call(a, k, phase):
+            draw[0] = 0.999
+            want = result_for(a, k)
+            try:
+                got = f(*a, **k)
+            except Exception as e:  # noqa: BLE001
+                bad.append(('stampede_marker_raised', (a, k), 'f%r raised %r %s' % ((a, k), e, phase)))
+                return False
+            if not same_result(got, want):
+                bad.append(('stampede_marker_wrong', (a, k), 'f%r returned %s %s; the function returns %s for these arguments' % (
+                    (a, k), describe(got), phase, describe(want))))
+                return False
+            return True
+        a0, k0 = base
+        t0 = clock.time()
+        if not call(a0, k0, '(first call)'):
+            return bad, False
+        draw[0] = 1e-300
+        r = f(*a0, **k0)
+        draw[0] = 0.999
+        if not started:
+            return bad, False       # the early-recomputation branch was not taken: nothing to observe
+        if not same_result(r, result_for(a0, k0)):
+            bad.append(('stampede_marker_wrong', base, 'the repeated call f%r that started the early recomputation returned %s' % (base, describe(r))))
+            return bad, True
+        limit = t0 + 2 * MARKER_LONG - MARKER_SHORT         # (the first computation ended at t0 + MARKER_LONG; its marker lives MARKER_LONG s)
+        probes, asked = [], [base]
+        for p in marker_probes(a0, k0):
+            # (C16-F1, recorded: a positional None imitates the separator of args_to_key -- such pairs are left to enumerate_keys)
+            v = vis(p[0], p[1], ign)
+            if any(vis(q[0], q[1], ign) != v and known_collision(q, p, typed, ign) for q in asked):
+                continue
+            asked.append(p)
+            probes.append(p)
+        if only is not None:
+            probes = [p for p in probes if marker_enc(*p) == only]
+        what = 'while the early recomputation of f%r, started %%g s ago, %s' % (base, 'has not finished' if mode == 'pending' else 'has just finished')
+        for a, k in probes + [base]:
+            if clock.time() + MARKER_QUICK >= limit:
+                break
+            res.count(['stampede-marker', kind, typed, repr(ign), mode, repr(base), repr(a), repr(sorted(k.items(), key=repr))], nontrivial=True)
+            if not call(a, k, what % (clock.time() - (t0 + MARKER_LONG))):
+                return bad, True
+        for th in started:
+            if th is not None:
+                th._t(*th._a, **th._k)
+        for a, k in probes + [base]:
+            if not call(a, k, 'after the early recomputation of f%r' % (base,)):
+                return bad, True
+        return bad, True
+    finally:
+        rec.random, rec.threading = saved
+
+
+def stampede_marker(ctx, res):
+    clock = instr.Clock(1000.0)
+    found = {}
+    n = taken = 0
+    with instr.Installed(clock):
+        for kind in MARKER_KINDS:
+            d = ctx.scratch('c16m')
+            c = diskcache.Cache(d) if kind == 'stampede' else diskcache.FanoutCache(d, shards=3)
+            try:
+                for typed, ign in [(False, ()), (True, ()), (False, (0,)), (True, ('z',))]:
+                    for base in MARKER_BASES:
+                        for mode in ('pending', 'done'):
+                            n += 1
+                            make = lambda typed, ign, n=n: diskcache.memoize_stampede(c, 1000, name='m%d' % n, typed=typed, ignore=ign)      # noqa: E731
+                            bad, took = run_stampede_marker(res, clock, make, kind, typed, ign, base, mode)
+                            taken += 1 if took else 0
+                            for sig, probe, text in bad:
+                                found.setdefault((sig, kind), []).append((typed, ign, base, mode, probe, text))
+            finally:
+                c.close()
+    for (sig, kind), items in sorted(found.items()):
+        typed, ign, base, mode, probe, text = items[0]
+        res.violations.append(fw.Violation(sig, 'memoize_stampede on a %s, typed=%r, ignore=%r: %s (%d configurations fail)' % (
+            'Cache' if kind == 'stampede' else 'FanoutCache', typed, ign, text, len(items)),
+            {'check': 'stampede_marker', 'kind': kind, 'typed': typed, 'ignore': list(map(repr, ign)), 'base': marker_enc(*base), 'mode': mode,
+             'probe': marker_enc(*probe)}))
+    res.extra['stampede_marker_functions'] = n
+    res.extra['stampede_marker_functions_that_recomputed_early'] = taken
+
+
 def derived_names(ctx, res):
     """Functions memoized WITHOUT name= get the base full_name(func) = module.qualname: two different functions with the
     same short name (methods of two classes, helpers nested in two factories) must not share entries."""
@@ -1092,7 +1257,11 @@ def run(ctx):
                 'the same from the arguments, not from __cache_key__); lock contention: Cache / FanoutCache / DjangoCache / Index / memoize_stampede on a Cache '
                 'and on a FanoutCache x settings {default, statistics, least-recently-used, least-frequently-used} x {lock held during a repeated call, '
                 'during the first call} x k in {1, 3}: a second SQLite connection holds the write lock of every shard database through k failed BEGIN '
-                'attempts of the caller and commits right before attempt k+1; every repeated call is served from the cache and returns the result.  non-trivial = at least one argument; distinct = distinct (config, call).')
+                'attempts of the caller and commits right before attempt k+1; every repeated call is served from the cache and returns the result; '
+                'memoize_stampede on a Cache and on a FanoutCache x 4 (typed, ignore) settings x 7 base calls: the early recomputation of the base call is forced '
+                '(random draw fixed, the thread held back or run at once), and while its marker entry exists -- and again afterwards -- about 30 calls whose arguments '
+                'extend the base call by one or two positional values / a keyword / both, drawn from {None, ENOVAL, UNKNOWN, (), (None,), ("ENOVAL",), "ENOVAL", 0, False, "", b""}, '
+                'and the base call itself return what the function returns for their own arguments (pairs that collide by the recorded C16-F1 are left out).  non-trivial = at least one argument; distinct = distinct (config, call).')
     if ctx.quick:
         cc = enumerate_keys(ctx, res, 2, 2)
         correspondence(ctx, res, cc, 1200)
@@ -1114,6 +1283,7 @@ def run(ctx):
     res.extra['exhaustive'] = True
     stampede_guard(ctx, res)
     stampede_recompute(ctx, res)
+    stampede_marker(ctx, res)
     derived_names(ctx, res)
     res.witnessed['none_positional'] = witness_none_positional()
     return res
@@ -1130,6 +1300,7 @@ def search(ctx, broken):
     lock_contention(ctx, res, 2)
     stampede_guard(ctx, res)
     stampede_recompute(ctx, res)
+    stampede_marker(ctx, res)
     derived_names(ctx, res)
     return res
 
@@ -1235,6 +1406,27 @@ def replay(payload):
                 print('MONITOR %s: %s' % (sig, text))
             print('%s memoizer, %s settings, lock held during the %s call: %s' % (
                 case['kind'], case['mode'], case['phase'], 'repeated calls served from the cache' if not bad else 'NOT served from the cache'))
+            return not bad
+        finally:
+            shutil.rmtree(d, ignore_errors=True)
+    if case.get('check') == 'stampede_marker':
+        import tempfile, shutil
+        d = tempfile.mkdtemp(prefix='c16r-')
+        clock = instr.Clock(1000.0)
+        ign = tuple(dec_value(x) for x in case['ignore'])
+        try:
+            with instr.Installed(clock):
+                c = diskcache.Cache(d) if case['kind'] == 'stampede' else diskcache.FanoutCache(d, shards=3)
+                try:
+                    make = lambda typed, ign: diskcache.memoize_stampede(c, 1000, name='m', typed=typed, ignore=ign)      # noqa: E731
+                    bad, took = run_stampede_marker(fw.Result(), clock, make, case['kind'], case['typed'], ign, marker_dec(case['base']), case['mode'],
+                                                    only=case.get('probe'))
+                finally:
+                    c.close()
+            for sig, probe, text in bad:
+                print('MONITOR %s: %s' % (sig, text))
+            print('memoize_stampede, early recomputation of f%r %s: %s' % (marker_dec(case['base']), case['mode'],
+                                                                           'other calls return their own results' if not bad else 'another call did NOT get its own result'))
             return not bad
         finally:
             shutil.rmtree(d, ignore_errors=True)
